@@ -576,6 +576,57 @@ func runSequences(baseline map[string]string) []Record {
 		os.Rename(aside, prot)
 	}
 	os.Remove("/work/seq4-rootlink")
+	// (5) the same refusal for a process that is NOT root: a directory inside a protected one
+	// that belongs to a service account, reached directly and through a symlink. The guard is
+	// about where the database would live, not about who asks
+	{
+		const uid = 65534
+		prot := "/boot"
+		owned := prot + "/seq5-svc-owned"
+		os.MkdirAll(owned, 0o755)
+		os.MkdirAll("/work/seq5", 0o755)
+		os.Chown(owned, uid, uid)
+		os.Chown("/work/seq5", uid, uid)
+		os.Symlink(owned, "/work/seq5/link")
+		id++
+		setup := Record{Case: Case{ID: id, Spelling: Spelling{Path: owned, Cwd: "/", Fam: "sequence"}}, Verdict: "held", Class: "sequence/unprivileged-caller/rw"}
+		if err := syscall.Seteuid(uid); err != nil {
+			setup.Skipped = "sequence-setup: seteuid: " + err.Error()
+			out = append(out, setup)
+		} else {
+			type att struct {
+				sp      string
+				o, r    bool
+				e       string
+				control bool
+			}
+			var atts []att
+			for _, sp := range []string{owned + "/direct.db", "/work/seq5/link/via-link.db", "/./boot/seq5-svc-owned/../seq5-svc-owned/dots.db"} {
+				o, r, e := open(sp, false)
+				atts = append(atts, att{sp: sp, o: o, r: r, e: e})
+			}
+			// control: the same unprivileged process may open a database outside
+			o, r, e := open("/work/seq5/outside.db", false)
+			atts = append(atts, att{sp: "/work/seq5/outside.db", o: o, r: r, e: e, control: true})
+			syscall.Seteuid(0)
+			for _, a := range atts {
+				id++
+				rec := Record{Case: Case{ID: id, Spelling: Spelling{Path: a.sp, Cwd: "/", Fam: "sequence"}}, Opened: a.o, Refused: a.r, Err: a.e, Verdict: "held", Class: "sequence/unprivileged-caller/rw"}
+				switch {
+				case a.control && a.r:
+					rec.Verdict, rec.Key = "violated", "wrongly-refused/unprivileged-caller-outside"
+					rec.What = fmt.Sprintf("euid %d: %q lies outside every protected directory and was refused: %s", uid, a.sp, a.e)
+				case !a.control && !a.r:
+					rec.Inside = prot
+					rec.Verdict, rec.Key = "violated", "not-refused/unprivileged-caller"
+					rec.What = fmt.Sprintf("euid %d: a read-write open of %q, inside %s (a sub-directory owned by that uid), was not refused as a security violation (opened=%v, err=%q)", uid, a.sp, prot, a.o, a.e)
+				}
+				out = append(out, rec)
+			}
+		}
+		os.RemoveAll(owned)
+		os.RemoveAll("/work/seq5")
+	}
 	return out
 }
 
